@@ -40,11 +40,15 @@ CLAIMS.update({
  "C01": ("proof", "theorems: the specification's coefficients minimise ||W(y_s - Phi c)|| for every right-hand side and are unique (C01_optimal, "
          "C01_unique), linear in the data; the implementation's truncated-SVD formula is optimal / minimum-norm for the truncated matrix for any "
          "orthonormal SVD factors and threshold (C01_svd_*), and equals the specification under full rank (C01_svd_is_lsq); correspondence: "
-         "coefficients at construction and after updates compared in exact rational arithmetic with the certified least-squares solution",
-         NUM + "rank-deficient inputs are covered by the theorems and by finiteness checks, not by value comparison", "§6 C01"),
+         "coefficients at construction and after updates compared in exact rational arithmetic with the certified least-squares solution; "
+         "exactly rank-deficient bases with an active threshold against the minimum-norm specification (C01_rankdef_*); the cached SVD "
+         "factors against svd_spec and the code-shaped truncated solve (C01_code_shaped_*); default / tiny / large thresholds, all four "
+         "constructors, f32/f64, dev and release profiles",
+         NUM + "open known finding: nalgebra's SVD is not a decomposition on some exactly rank-deficient inputs (narrowly attributed)", "§6 C01, §11.2"),
  "C02": ("proof", "residual = column stacking of W(Y - Phi C) (C02_residual, C02_layout), weights exactly once (C02_weighted_once, C02_weighted_data), "
          "one coherent state for every history (C02_one_state); correspondence: residuals vs exact spec, weighted data bit-exact, best fit vs "
-         "Phi(alpha^) C^ in exact arithmetic, shapes, reported parameters", NUM, "§6 C02"),
+         "Phi(alpha^) C^ in exact arithmetic, shapes, reported parameters; rank-deficient states, overflowing updates, problems in tiny units",
+         NUM + "open known finding (nalgebra SVD) seen through the residuals", "§6 C02, §11.2"),
  "C03": ("proof", "Kaufman column = -(I-P) W D_k C, orthogonal to range(W Phi), implementation formula U(U^T V) - V equals it under full rank "
          "(C03_formula, C03_svd_kaufman, C03_orthogonal), algebraic first-order identity (C03_gradient), None iff a derivative failed, never "
          "partial; correspondence: every Jacobian column vs exact spec for shared-parameter models, 1-6 right-hand sides, all weights; "
@@ -52,7 +56,9 @@ CLAIMS.update({
  "C04": ("proof", "for EVERY script of accepted/rejected steps and every (failing) model: fit = Ok iff termination successful (table regenerated from "
          "the linked crate each run), final problem coherent and at the parameters the objective belongs to, objective never above the initial "
          "one given the optimizer's acceptance contract, evaluation budget (C04_*); correspondence: recorded optimizer runs replayed as scripts "
-         "through Model/LMDriver.v, final state bit-exact vs fresh problem, objective identities on the implementation's numbers",
+         "through Model/LMDriver.v, final state bit-exact vs fresh problem, objective identities on the implementation's numbers, final state "
+         "(also of failed fits) against the exact least-squares specification, all termination kinds incl. unattainable tolerances, the library's "
+         "default solver",
          TB + "levenberg-marquardt 0.14's numerical decisions are an oracle whose call pattern is validated on every recorded run", "§6 C04"),
  "C06": ("proof", "weights = left multiplication by diag(w); the weighted problem is definitionally the row-scaled unweighted problem for "
          "coefficients, residuals, Jacobian (C06_coeffs/resid/jac), unit weights = none, zero weight removes a sample (C06_zero_*); "
@@ -66,7 +72,8 @@ CLAIMS.update({
          NUM + "usize = 64 bit", "§6 C12"),
  "C13": ("proof", "Cov = chi^2 (H^T H)^-1 with H = W[Phi | D_k c], ordering, symmetry, non-negative diagonal, Cauchy-Schwarz (C13_*); correspondence: "
          "defining equation (H^T H) Cov = chi^2 1 evaluated in exact arithmetic on the implementation's covariance, accessors, correlation",
-         NUM + "ill-conditioned normal matrices (kappa > 1e6) are not compared", "§6 C13"),
+         NUM + "for ill-conditioned normal matrices (kappa > 1e6) the defining equation / symmetry / signs are not compared, accessors and "
+         "the scale-free correlation test still are; dev and release profiles", "§6 C13"),
  "C14": ("proof", "sigma_i^2 = j_i^T Cov j_i with unweighted rows, non-negative, size N, monotone in p given a monotone quantile (C14_*); "
          "the floating-point quantile argument (p + 1.) / 2. in IEEE binary64 / widened binary32 as a Flocq model (Props/C14F.v: acceptance "
          "assertion, exact widening, once-rounded sum halved exactly, range [1/2, 1], C14F_edge_refuted: the largest double below one gives "
@@ -112,7 +119,11 @@ def main():
                        "replay_cmd_template": "./check %s --replay {path}" % pid, "engine": "coq+harness",
                        "level_claimed": {"category": cat, "text": text, "design_ref": "DESIGN.md " + ref},
                        "level_note": note,
-                       "technique": "machine-checked proof in Coq (Rocq) 8.16 + model/implementation correspondence check"})
+                       "technique": ("machine-checked proof in Coq (Rocq) 8.16 about a hand-written Gallina model + correspondence check "
+                                     "(model evaluated with vm_compute vs the real library through a Rust harness, dev and release profiles)"
+                                     if cat == "proof" else
+                                     "partial machine-checked proof in Coq (Rocq) 8.16 (what the model can carry) + model-evaluated exploration "
+                                     "of the real library through a Rust harness")})
     na = []
     for pid in ALL:
         if pid in CLAIMS:
